@@ -64,4 +64,9 @@ theorem aligned (d : EnumDef) (hnd : ∀ v ∈ d.variants, v.disabled = false)
 /-! non-vacuity -/
 example : variantArray { variants := [{ ident := [65] }, { ident := [66] }] } = some [[65], [66]] := by decide
 
+/-- **C08 at source level**: COUNT is the number of variants written without a `disabled` item -/
+theorem source_count (s : RawSource) :
+    enumCount s.declared = (s.variants.filter (fun r => !r.isDisabled)).length := by
+  rw [enumCount_eq, source_enabled, List.length_map]
+
 end Strum
